@@ -94,6 +94,50 @@ def unit_len_sequence(U):
                 replay=lambda m: {"inputs": m, "expected": m["end"] - m["start"] + 1, "observed": F.Feature(start=m["start"], end=m["end"]).__len__(),
                                   "violates": F.Feature(start=m["start"], end=m["end"]).__len__() != m["end"] - m["start"] + 1})
 
+    # len() is a function of the CURRENT coordinates: measured, then one coordinate changed (by any of the ways a Feature
+    # offers), measured again
+    for how in ("end", "stop", "start", "item4"):
+        it2 = Interp()
+        s1, e1, x = z3.Int("start"), z3.Int("end"), z3.Int("new")
+
+        def run_edit(ctx, how=how):
+            f = F.Feature(seqid="c", start=1, end=2)
+            it2.setattr(f, "start", SInt(s1))
+            it2.setattr(f, "end", SInt(e1))
+            n1 = it2.call(F.Feature.__len__, [f], {})
+            if how == "item4":
+                it2.call(F.Feature.__setitem__, [f, 4, SInt(x)], {})
+            else:
+                it2.setattr(f, how, SInt(x))
+            n2 = it2.call(F.Feature.__len__, [f], {})
+            return n1, n2
+
+        def replay_edit(m, how=how):
+            for (a, b, c) in ((int(m.get("start", 101)), int(m.get("end", 250)), int(m.get("new", 392))), (101, 250, 392), (5, 9, 7)):
+                if b - a + 1 < 0:
+                    continue
+                f = F.Feature(seqid="c", start=a, end=b)
+                len(f)
+                if how == "item4":
+                    f[4] = c
+                else:
+                    setattr(f, how, c)
+                st, en = (c, b) if how == "start" else (a, c)
+                if en - st + 1 < 0:
+                    continue
+                n2 = len(f)
+                if n2 != en - st + 1:
+                    return {"inputs": {"start": a, "end": b, "then": "len(feature); %s = %d; len(feature)" % ("feature[4]" if how == "item4" else "feature." + how, c)}, "expected": en - st + 1, "observed": n2, "violates": True}
+            return {"inputs": m, "violates": False}
+        for p in U.explore(run_edit, it2):
+            ok = p.kind == "return" and all(isinstance(v, SInt) for v in p.value)
+            if how == "start":
+                goal = z3.And(p.value[0].e == e1 - s1 + 1, p.value[1].e == e1 - x + 1) if ok else z3.BoolVal(False)
+            else:
+                goal = z3.And(p.value[0].e == e1 - s1 + 1, p.value[1].e == x - s1 + 1) if ok else z3.BoolVal(False)
+            U.prove("C18.len.after_edit[%s]#p%d" % (how, p.index), "len(feature) follows the coordinates: after %s is assigned, len is computed from the new value" % ("feature[4]" if how == "item4" else "feature." + how),
+                    p.pc, goal, {"start": s1, "end": e1, "new": x}, replay=replay_edit)
+
     for use_strand in (True, False):
         strand = z3.String("strand")
 
